@@ -71,7 +71,7 @@ COMPONENTS = {
 }
 TIERS = {
     "quick": {"histories": 112, "real": 6, "budget_s": 50, "timeout": 240, "shrink_s": 60, "batch": 112},
-    "thorough": {"histories": 2400, "real": 72, "budget_s": 520, "timeout": 300, "shrink_s": 120, "batch": 400},
+    "thorough": {"histories": 2400, "real": 72, "budget_s": 480, "timeout": 300, "shrink_s": 120, "batch": 200},
 }
 
 REL_TOL = 1e-9
